@@ -34,18 +34,23 @@ static const struct { const char *qtype; int qt; char enc; const char *name; } P
 #define NPRES ((int)(sizeof PRES / sizeof PRES[0]))
 
 /* field alphabets */
-static const char *FC[] = {
-	"10.0.0.2", "192.168.255.254", "0.0.0.0", "255.255.255.255", "1.2.3.4",
-	"10.0.0.2 ;id", "10.0.0.2\t;id", "10.0.0.2\n;id", "10.0.0.2\v;id", "10.0.0.2\f;id", "10.0.0.2\r;id",
-	"10.0.0.2 |x", "10.0.0.2 `id`", "10.0.0.2 $(id)", "10.0.0.2 &&x", "10.0.0.2 >f", "10.0.0.2 x",
-	"10.0.0.2;id", "10.0.0.2|x", "10.0.0.2`id`", "10.0.0.2$(id)", "10.0.0.2&", "10.0.0.2>f", "10.0.0.2'", "10.0.0.2\"", "10.0.0.2\\",
-	" 10.0.0.2", "\t10.0.0.2", "10.0.0.2 ",
-	"1", "1.2", "1.2.3", "0x7f.1", "0x7f.0.0.1", "010.1.1.1", "256.1.1.1", "1.2.3.4.5", "10.0.0.2.", "10..0.2", "+1.2.3.4", "1.2.3.-4",
-	"a", ";id", "$(reboot)", "localhost", "1.1.1.1 1.1.1.1", "1.1.1.1\n/sbin/halt",
+/* client-address field: dotted quads of minimal, usual and maximal length x suffixes, plus odd forms */
+static const char *QUADS[] = { "1.2.3.4", "10.0.0.2", "192.168.255.254" };
+static const char *SUFFIX[] = { "", " ;id", "\t;id", "\n;id", "\v;id", "\f;id", "\r;id", " |x", " `id`", " $(id)", " &&x", " >f", " x", " ",
+	";id", "|x", "`id`", "$(id)", "&", ">f", "'", "\"", "\\", ".", "\x80", "0", " 1.1.1.1", "\n/sbin/halt" };
+static const char *ODD[] = { "0.0.0.0", "255.255.255.255", " 10.0.0.2", "\t10.0.0.2",
+	"1", "1.2", "1.2.3", "0x7f.1", "0x7f.0.0.1", "010.1.1.1", "256.1.1.1", "1.2.3.4.5", "10..0.2", "+1.2.3.4", "1.2.3.-4",
+	"a", ";id", "$(reboot)", "localhost",
 	"aaaaaaaaaaaaaaaaaaaaaaaaaaaaaaaaaaaaaaaaaaaaaaaaaaaaaaaaaaaaaaaa",                       /* 64 chars */
 	"1.1.1.1 aaaaaaaaaaaaaaaaaaaaaaaaaaaaaaaaaaaaaaaaaaaaaaaaaaaaaaaaaaaaaaaaaaaaaaaaaaaaaaaa", /* > 64 chars */
-	"10.0.0.2\x80", "\xff\xfe", "",
-};
+	"\xff\xfe", "" };
+static const char *FC[200]; static int nFC;
+static char fcbuf[200][120];
+static void mk_fc(void)
+{
+	for (unsigned q = 0; q < sizeof QUADS / sizeof QUADS[0]; q++) for (unsigned x = 0; x < sizeof SUFFIX / sizeof SUFFIX[0]; x++) { snprintf(fcbuf[nFC], sizeof fcbuf[0], "%s%s", QUADS[q], SUFFIX[x]); FC[nFC] = fcbuf[nFC]; nFC++; }
+	for (unsigned o = 0; o < sizeof ODD / sizeof ODD[0]; o++) FC[nFC++] = ODD[o];
+}
 static const char *FS[] = { "10.0.0.1", "10.0.0.1 ;id", "10.0.0.1;id", "`id`", "a b", "", "x",
 	"bbbbbbbbbbbbbbbbbbbbbbbbbbbbbbbbbbbbbbbbbbbbbbbbbbbbbbbbbbbbbbbb" };
 static const char *FM[] = { "1130", "200", "201", "1500", "1501", "0", "-1", "2147483648", "1130;id", "1130 x", "+1130", " 1130" };
@@ -223,7 +228,7 @@ static void job(int pres)
 	/* full product of the field alphabets */
 	int stepC = 1, stepS = 1;
 	if (!thorough && pres > 1) stepS = N(FS);        /* quick: full product only for the raw presentations, field-wise elsewhere */
-	for (int c = 0; c < N(FC); c += stepC) for (int s_ = 0; s_ < N(FS); s_ += stepS)
+	for (int c = 0; c < nFC; c += stepC) for (int s_ = 0; s_ < N(FS); s_ += stepS)
 		for (int m_ = 0; m_ < N(FM); m_++) for (int n_ = 0; n_ < N(FN); n_++) {
 			if (!thorough && pres > 1 && m_ > 0 && n_ > 0) continue;
 			int l = snprintf(buf, sizeof buf, "%s-%s-%s-%s", FS[s_], FC[c], FM[m_], FN[n_]);
@@ -232,7 +237,7 @@ static void job(int pres)
 	for (int e = 0; e < N(EXTRA); e++) one_case(pres, EXTRA[e], (int)strlen(EXTRA[e]));
 	/* trailing bytes after the last field, and a NUL inside */
 	{ const char t[] = "10.0.0.1-10.0.0.2-1130-27\0;id"; one_case(pres, t, sizeof t - 1); }
-	xp_sample("%s: %ld login replies (fields: %d client-address x %d server-address x %d mtu x %d netmask values%s + %d structural)", PRES[pres].name, ncases, N(FC), N(FS), N(FM), N(FN),
+	xp_sample("%s: %ld login replies (fields: %d client-address x %d server-address x %d mtu x %d netmask values%s + %d structural)", PRES[pres].name, ncases, nFC, N(FS), N(FM), N(FN),
 		  (!thorough && pres > 1) ? ", field-wise" : ", full product", N(EXTRA) + 1);
 	__atomic_fetch_add(&XS->execs, ncases, __ATOMIC_RELAXED);
 	__atomic_fetch_add(&XS->states, ncases, __ATOMIC_RELAXED);
@@ -243,6 +248,7 @@ int main(int argc, char **argv)
 {
 	hc_args a = hc_parse(argc, argv, "C13");
 	thorough = a.thorough;
+	mk_fc();
 	xp_init("C13", a.tier, 1024, a.budget_s);
 	/* self-test of the grammar */
 	if (allowed_command("PATH=/sbin:/bin ifconfig dns0 10.0.0.2 10.0.0.2 netmask 255.255.255.224") != 1 || allowed_command("PATH=/sbin:/bin ifconfig dns0 mtu 1130") != 2 ||
